@@ -14,7 +14,9 @@
       iteration's child seed derivation (not on the previous level's)
   H6  parameter tables (type -> w, p, ls per hash; type -> h) equal Appendix B / section 5.1 (shared with C12-T1; the ls deviation
       F7 is a known finding here as well)
-Not decided: byte equality with an independent signer for concrete inputs; the chain arithmetic itself.
+  H7  level i is signed with its own leaf and its own parameter set: the per-level key generation receives element i of the counter
+      decomposition and element i of the decoded parameter list (C03's provenance rules P1)
+Not decided: byte equality with an independent signer for concrete inputs; the chain and checksum arithmetic (C12).
 """
 from . import c12, c13, core, expr, flow, hl, hlref, ia, paramtable as pt
 from .api import Api
